@@ -96,10 +96,10 @@ class World(object):
             obj = a[0].val; op = a[1].val
             occ = s.ghost.get('occ%d' % obj, ZERO)
             mm.violate('overlap:obj%d:op%d' % (obj, op), And(g, Ugt(occ, ZERO)))
-            s.ghost['occ%d' % obj] = Ite(g, Add(occ, ONE), occ)
+            s.ghost['occ%d' % obj] = Ite(And(g, Ult(occ, BV(3))), Add(occ, ONE), occ)
             n = s.ghost.get('nrun%d' % op, ZERO)
             mm.violate('ran-twice:op%d' % op, And(g, Ugt(n, ZERO)))
-            s.ghost['nrun%d' % op] = Ite(g, Add(n, ONE), n)
+            s.ghost['nrun%d' % op] = Ite(And(g, Ult(n, BV(3))), Add(n, ONE), n)
             s.gset('start%d' % op, BV(mm.now), g, NONE_T)
             s.gset('runner%d' % op, BV(th.tid), g, NONE_T)
             return UNIT
@@ -107,7 +107,7 @@ class World(object):
         def exit_(mm, th, a, g):
             obj = a[0].val; op = a[1].val
             occ = s.ghost.get('occ%d' % obj, ZERO)
-            s.ghost['occ%d' % obj] = Ite(g, Sub(occ, ONE), occ)
+            s.ghost['occ%d' % obj] = Ite(And(g, Ugt(occ, ZERO)), Sub(occ, ONE), occ)
             s.gset('end%d' % op, BV(mm.now), g, NONE_T)
             return UNIT
         R('__exit', exit_)
@@ -173,7 +173,7 @@ class World(object):
                 kind = op[0]
                 if kind in ('sync', 'desync', 'try_sync'):
                     q = op[1]; body = op[2] if len(op) > 2 else {}
-                    s.ops[opid] = dict(thread=name, tid=None, obj=q, kind=kind, idx=oi, opid=opid, tindex=ti)
+                    s.ops[opid] = dict(thread=name, tid=None, obj=q, kind=kind, idx=oi, opid=opid, tindex=ti, probe=bool(body.get('probe')), gated=any(isinstance(x, tuple) and x[0] == 'gate' for x in body.get('acts', [])))
                     cl = 'scen:%s:%d' % (name, oi)
                     c = fresh(); r = fresh(); x = fresh(); y = fresh()
                     tok = 40 + opid
@@ -317,5 +317,6 @@ class World(object):
         norun = And(*[Not(s.runnable[t.tid]) for t in callers + pools])
         allfin = And(*[s.fin[t.tid] for t in callers])
         s.deadlock = And(norun, Not(allfin))
+        s.norun = norun
         s.quiescent = And(allfin, *[Or(Not(t.started), s.idle[t.tid], s.fin[t.tid]) for t in pools])
         s.anypanic = Or(*[g for _, _, g in m.panics]) if m.panics else FALSE
